@@ -7,6 +7,10 @@
 //   rel14p <n> <r phi z>*n          cluster_spacepoints -> Track::try_from(each cluster) -> find_vertices
 //   rel14f <n> <r phi z>*n          Track::try_from(Cluster::verif_from_points(points)), n >= 3
 //   rel14v <k> <x0 y0 z0 r phi0 h t_inner t_outer>*k      find_vertices on tracks built by Track::verif_from_params
+//   rel14kf-tinyphi-p / rel14kf-tinyphi-f <n> <r phi z>*n     the oracles of rel14p / rel14f on the class of the OPEN
+//                                   FINDING `tinyphi` (all |phi| <= 1e-160 rad, not exactly collinear: the cluster is
+//                                   straight to better than 1e-155 m, the initial circle has a radius > 1e154 m and
+//                                   closest_t evaluates inf/inf): the unchanged tree panics on these
 //   fit3 <n> <r phi z>*n            differential: `noinit` / `track` of Track::try_from against the model of
 //                                   three_template_points (coq/Recon/Fit.v: fit_outcome)
 // floats are 16 hex digits of the bit pattern.
@@ -152,7 +156,7 @@ pub fn parse_floats(f: &[&str]) -> Option<Vec<f64>> {
 pub fn observe_line(line: &str) -> Option<String> {
     let f: Vec<&str> = line.split(' ').collect();
     match f[0] {
-        "rel14p" | "rel14f" | "fit3" => {
+        "rel14p" | "rel14f" | "fit3" | "rel14kf-tinyphi-p" | "rel14kf-tinyphi-f" => {
             let n: usize = f.get(1)?.parse().ok()?;
             if f.len() != 2 + 3 * n {
                 return None;
@@ -160,8 +164,8 @@ pub fn observe_line(line: &str) -> Option<String> {
             let v = parse_floats(&f[2..])?;
             let pts: Vec<P3> = v.chunks(3).map(|c| [c[0], c[1], c[2]]).collect();
             Some(match f[0] {
-                "rel14p" => pipeline(pts).0,
-                "rel14f" => fit_only(pts).0,
+                "rel14p" | "rel14kf-tinyphi-p" => pipeline(pts).0,
+                "rel14f" | "rel14kf-tinyphi-f" => fit_only(pts).0,
                 _ => fit_class(pts),
             })
         }
@@ -317,6 +321,22 @@ fn origin_circle_points(r: &mut Rng, n: usize, eps: f64) -> Vec<P3> {
         }
     }
     out
+}
+
+/// class of the open finding `tinyphi`: a radial line at phi = 0 with an angular scatter of at most 1e-160 rad
+fn tinyphi_points(r: &mut Rng, n: usize) -> Vec<P3> {
+    let s = match r.below(3) {
+        0 => r.pick(&[1e-160, 1e-200, 1e-250, 1e-300]),
+        _ => log_uniform(r, 1e-300, 1e-160),
+    };
+    let dz = r.pick(&[0.0, 0.01, 0.003, 1e-300]);
+    let z0 = uniform(r, -1.0, 1.0);
+    (0..n)
+        .map(|i| {
+            let rr = if n <= 16 { 0.105 + 0.09 * i as f64 / n as f64 } else { uniform(r, 0.105, 0.2) };
+            [rr, s * uniform(r, -1.0, 1.0), (z0 + dz * i as f64).clamp(-ZMAX, ZMAX)]
+        })
+        .collect()
 }
 
 fn dyadic_points(r: &mut Rng, n: usize) -> Vec<P3> {
@@ -544,6 +564,18 @@ pub fn run(tier: &str, seed: u64, s: &mut Sink) {
             }
         }
         s.put(&c, &obs, &format!("vertex:k={k}:{class}"), k >= 2);
+    }
+    // the class of the open finding `tinyphi` under its own tags (a known-finding recogniser keys on the prefix rel14kf-)
+    for i in 0..(if thorough { 60 } else { 12 }) {
+        let n = if i % 2 == 0 { r.range(13, 24) as usize } else { r.range(3, 8) as usize };
+        let pts = tinyphi_points(&mut r, n);
+        if i % 2 == 0 {
+            let (obs, class) = pipeline(pts.clone());
+            s.put(&case_points("rel14kf-tinyphi-p", &pts), &obs, &format!("known-finding:tinyphi:pipeline:{class}"), true);
+        } else {
+            let (obs, class) = fit_only(pts.clone());
+            s.put(&case_points("rel14kf-tinyphi-f", &pts), &obs, &format!("known-finding:tinyphi:fit:{class}"), true);
+        }
     }
     for _ in 0..n_fit3 {
         // the NoInitialParameters decision: small clusters of every family, so that ties and exact collinearity are common
